@@ -396,6 +396,17 @@ class Seq(object):
             'externpy:api': xlib.c22_ep_probe,
             'externpy:ffi': xffi.addressof(xlib, 'c22_ep_probe'),
         }
+        # the same C probe entered through ctypes.PyDLL: the C code, and so the callback, runs
+        # with the GIL held and this thread's state current
+        if st.get('pydll_probe') is None:
+            import ctypes
+            fn = ctypes.PyDLL(sys.modules['_c22mod'].__file__).c22_cb_probe
+            fn.argtypes = [ctypes.c_void_p, ctypes.c_int, ctypes.c_int, ctypes.c_int, ctypes.c_void_p]
+            fn.restype = ctypes.c_int
+            st['pydll_probe'] = fn
+        pyfn = st['pydll_probe']
+        self.probes['callback:pydll-gil-held'] = lambda pre, x, post, after: pyfn(
+            int(xffi.cast('intptr_t', self.cb)), pre, x, post, int(xffi.cast('intptr_t', after)))
         self.directs = {'callback': self.cb, 'externpy': xlib.c22_ep,
                         'externpy-addressof': xffi.addressof(xlib, 'c22_ep')}
 
@@ -601,7 +612,9 @@ class Seq(object):
                 self.bad('errno-set-in-callback-lost:' + kind.split(':')[0],
                          'errno was %d at the end of the callback, the C caller read %d'
                          % (left, after[0]))
-            self.m = post
+            # (a call made by ctypes does not go through cffi's errno save: what cffi keeps is
+            # what the callback's own bracket left)
+            self.m = left if kind == 'callback:pydll-gil-held' else post
             path = kind
         if res != (-7 if raises else x + 1000):
             raise _Harness('callback result %r' % (res,))
